@@ -276,6 +276,15 @@ class JSExec(GoExec, SpecMixin, CallsMixin):
     def js_ArrayExpression(self, st, e):
         return JSTuple([self.ev(st, x) for x in e['elements']])
 
+    def js_ObjectExpression(self, st, e):
+        # an object literal with plain identifier keys: a fresh mutable record
+        fields = {}
+        for pr in e['properties']:
+            if pr.get('type') != 'Property' or pr.get('computed') or pr['key'].get('type') != 'Identifier' or pr.get('kind', 'init') != 'init':
+                raise Unsupported('object literal property @%s' % self.line(e))
+            fields[pr['key']['name']] = self.ev(st, pr['value'])
+        return JSObj(fields, ref=fresh('obj'))
+
     def js_ConditionalExpression(self, st, e):
         c = self.truthy(st, self.ev(st, e['test']))
         if self.fork(st, c):
@@ -283,7 +292,13 @@ class JSExec(GoExec, SpecMixin, CallsMixin):
         return self.ev(st, e['alternate'])
 
     def js_LogicalExpression(self, st, e):
-        a = self.truthy(st, self.ev(st, e['left']))
+        left = self.ev(st, e['left'])
+        if e['operator'] == '||' and isinstance(left, JSObj) and '$nil' in left.fields:
+            # `obj || alternative` on an object-or-false value (a Go map: nil maps are `false`): the operand itself
+            if self.fork(st, z3.Not(left.fields['$nil'])):
+                return left
+            return self.ev(st, e['right'])
+        a = self.truthy(st, left)
         st.guards.append(a if e['operator'] == '&&' else z3.Not(a))
         try:
             b = self.truthy(st, self.ev(st, e['right']))
@@ -879,6 +894,12 @@ class JSExec(GoExec, SpecMixin, CallsMixin):
                 # the map-key string of a value, computed by the value's type: opaque (a string identity)
                 self.ev(st, args[0])
                 return JSStrId(fresh('keyfor'))
+            if isinstance(obj, JSObj) and obj.ctor == 'GoMap' and mname in ('set', 'delete'):
+                for a in args: self.ev(st, a)
+                return UNDEF            # the contents of maps are not modelled
+            if isinstance(obj, JSFunc) and mname == 'keyFor' and len(args) == 1:
+                self.ev(st, args[0])
+                return JSStrId(fresh('keyfor'))
             if isinstance(obj, JSQueue) and mname == 'shift' and not args:
                 return JSOptFn(fresh('q.empty', B))
             if isinstance(obj, JSDesc) and mname == 'copy' and len(args) == 2:
@@ -1382,6 +1403,8 @@ class JSExec(GoExec, SpecMixin, CallsMixin):
             return JSObj({'$array': arr, '$offset': off, '$length': ln, '$capacity': cap, '$nil': nil, '$elemtype': self.make_param(st, name + '.elem', 'elemtype')}, ctor='Slice', ref=fresh('obj'))
         if ty == 'elemtype':
             return JSObj({'kind': self.make_param(st, name + '.kind', 'nat')}, ctor='Type', ref=fresh('obj'))
+        if ty == 'gomap':          # a Go map: the nil map is `false`, otherwise a Map object (contents not modelled)
+            return JSObj({'$nil': fresh(name + '.nil', B)}, ctor='GoMap', ref=fresh('obj'))
         if ty == 'iface':          # an interface value: nil, or a boxed value whose constructor is a type descriptor
             return JSObj({'$nil': fresh(name + '.nil', B), 'constructor': self.make_param(st, name + '.type', 'desc'), '$val': fresh(name + '.val')}, ctor='Box', ref=fresh('obj'))
         if ty == 'chan':
